@@ -81,6 +81,7 @@ def cmrNode (jetCmr : String → Option Nat) (cm : Nat → Nat) : Node → Optio
   | .fail e => let (l, r) := failBlock e; some (update2 ivFail l r)
   | .word n bits => some (cmrWord n bits)
   | .jet name => jetCmr name
+  | .hidden h => some h
 
 /-- commitment roots of all nodes of a plan -/
 def cmrs (jetCmr : String → Option Nat) (p : Plan) : Option (Array Nat) :=
